@@ -93,6 +93,7 @@ type ptxn struct {
 	held             *latch.Lock // driver-held lock (direct client of the scheduler) instead of a KVTxn
 	direct           bool
 	pess             bool // pessimistic transaction: KVTxn.Commit must bypass the latches completely
+	failed           bool // Commit returned an error other than the latch conflict
 	warm             bool // the driver's warm-up transaction (not part of the program text)
 	start            uint64
 	status           byte // N, B (Commit / Lock in flight), K/S (direct lock returned), U
@@ -204,7 +205,10 @@ func (p *prog) commitWorker(t *ptxn) {
 	case errors.As(err, &wc):
 		t.res = "stale"
 	default:
-		t.res = "err"
+		// Commit failed after a non-stale Lock (e.g. write conflict found by TiKV, invisible to the latches): the latch
+		// verdict was "not stale"; no commit ts may be published, the lock must be handed back all the same
+		t.res = "ok"
+		t.failed = true
 	}
 	t.done.Store(true)
 }
@@ -493,7 +497,7 @@ func (p *prog) run(actions []string) {
 	totals.acts += len(p.acts)
 }
 
-var totals struct{ progs, acts, oracle, nfail int }
+var totals struct{ progs, acts, oracle, nfail, failed int }
 
 func runProg(id, spec string, actions []string) {
 	p := parseProg(id, spec)
@@ -505,6 +509,11 @@ func runProg(id, spec string, actions []string) {
 		}()
 		p.run(actions)
 	}()
+	for _, t := range p.txns {
+		if t.failed {
+			totals.failed++
+		}
+	}
 	fmt.Fprintf(out, "ACTS\t%s\n", strings.Join(p.acts, " "))
 	fmt.Fprintf(out, "END\t%s\tprog=%d\n", id, len(p.acts))
 	totals.progs++
@@ -543,6 +552,9 @@ func main() {
 		runProg(fmt.Sprintf("t-wake-%d", size), fmt.Sprintf("size=%d;txns=0.2/2!/0/2", size), strings.Fields("b0 b1 c1 c0 u1 b2 c2 b3 c3"))
 		// a pessimistic transaction in between: bypasses the latches (keys e,f of its own: its commit ts is invisible to them)
 		runProg(fmt.Sprintf("t-pess-%d", size), fmt.Sprintf("size=%d;txns=0.2/4.5~/2/0", size), strings.Fields("b0 b1 b2 c2 c1 c0 b3 c3"))
+		// Commit FAILS after a non-stale Lock: the pessimistic txn (bypassing the latches) commits c; the older optimistic
+		// {a,c} is not stale for the latches, TiKV answers write conflict; its latches must be released, max stays 0
+		runProg(fmt.Sprintf("t-fail-%d", size), fmt.Sprintf("size=%d;txns=0.2/2~/0.2", size), strings.Fields("b0 b1 c1 c0 b2 c2"))
 		// blocked, then woken NOT stale (holder gives up without commit ts)
 		runProg(fmt.Sprintf("t-wake-ok-%d", size), fmt.Sprintf("size=%d;txns=0.2/2!/0.2", size), strings.Fields("b0 b1 c1 c0 z1 b2 c2"))
 	}
@@ -606,5 +618,6 @@ func main() {
 		n++
 	}
 	fmt.Fprintf(out, "PS\tcaller_contract\t%d\n", totals.oracle)
+	fmt.Fprintf(out, "PS\tcommit_failed_after_lock_paths\t%d\n", totals.failed)
 	fmt.Fprintf(out, "TOTAL\tprogs=%d\tacts=%d\toraclefails=%d\n", totals.progs, totals.acts, totals.nfail)
 }
